@@ -281,7 +281,15 @@ var kept []keptSlice
 
 func init() { OnReset(func() { kept = nil }) }
 
-func recvBytesKeep(c mangos.Context) ([]byte, error) {
+// BytesReceiver is the byte-slice receive side of sockets and contexts.
+type BytesReceiver interface {
+	Recv() ([]byte, error)
+}
+
+// RecvKeep receives through the byte-slice API and keeps the slice (see CheckKept).
+func RecvKeep(r BytesReceiver) ([]byte, error) { return recvBytesKeep(r) }
+
+func recvBytesKeep(c BytesReceiver) ([]byte, error) {
 	b, err := c.Recv()
 	if err != nil {
 		return nil, err
@@ -294,7 +302,7 @@ func recvBytesKeep(c mangos.Context) ([]byte, error) {
 func CheckKept() {
 	for i, k := range kept {
 		if string(k.b) != k.want {
-			Failf("context-recv-slice-changed", "the slice returned by Context.Recv for message %d (%d bytes, %q) has changed since (now %q): the library kept using its buffer", i, len(k.want), clipStr(k.want), clipStr(string(k.b)))
+			Failf("recv-slice-changed", "the slice returned by the byte-slice Recv for message %d (%d bytes, %q) has changed since (now %q): the library kept using its buffer", i, len(k.want), clipStr(k.want), clipStr(string(k.b)))
 		}
 	}
 }
